@@ -261,7 +261,7 @@ def classify(res, text, linemap, units):
         for s in sp:
             lab = s.get('label') or ''
             if s.get('file_name', '').endswith('mirror.rs') and ('failed' in lab or msg == 'assertion failed'):
-                clause_lines.append(s['line_start'])
+                clause_lines += list(range(s['line_start'], s['line_end'] + 1))
         ftags = set()
         for cl in clause_lines + [s['line_start'] for s in mirror_spans]:
             for t in tags.get(cl, []):
@@ -425,6 +425,8 @@ def decide(pid, cfg, tier, seed, units, work, ev):
     mine = [f for f in all_fail if pid in f['tags']]
     text, linemap, info = mirror.build(mirror.ALL_FEATURES)
     for f in function_spans(text):
+        if linemap[f['start'] - 1][0] != 'src':
+            continue  # spec/proof function contributed by the annotations
         if f['module'] in cfg['modules'] and f['name'] not in units and not f['name'].startswith('verif_specs'):
             all_undec.append('function %s is not listed in units.json (new code not under contract)' % f['name'])
     relevant_rows = [r for r in fn_rows if not r['function'].split('::', 1)[-1].startswith('verif_specs')]
